@@ -112,7 +112,8 @@ Inductive act :=
 | AInject (r : nat) (c : cause)     (* the environment injects a failure into run r *)
 | AKill (r : nat) (c : cause)       (* an injected failure surfaces: first Kill wins *)
 | ATd (r : nat)                     (* the source plugin of run r is torn down *)
-| AEnd (r : nat).                   (* every node / worker goroutine of run r has returned *)
+| AEnd (r : nat)                    (* every node / worker goroutine of run r has returned *)
+| AConflict (r : nat).              (* v1: a connector of run r refuses to open, another live run holds it *)
 
 (* ---------- small helpers ---------- *)
 Definition onat_eqb (a b : option nat) : bool :=
@@ -215,6 +216,8 @@ Definition rw_started (r : run) : run :=
 Definition rw_dead (r : run) (x : res) : run :=
   mkRun PDead (r_src r) (r_kill r) (r_cands r) (r_stop r) (r_shutreq r) (r_intent r) (r_gshut r) (r_started r) (Some x).
 
+Definition is_live (r : run) : bool := match r_phase r with PLive => true | _ => false end.
+
 (* ---------- the Start state machine (user call or nested in a cleanup goroutine) ---------- *)
 Inductive sres :=
 | SNext (s : st) (pc : spc) (l : label)
@@ -243,7 +246,10 @@ Definition start_step (c : cfg) (s : st) (pc : spc) (choice : nat) : sres :=
       | 0 => SNext s (SOpenSrc i) LTau
       | 1 => if c_proc c then SFin s RetErr (LOpenFail KProc)      (* processor running flag is NOT released *)
              else SStuck
-      | _ => SFin (rel_proc s i) RetErr (LOpenFail KDst)
+      | 2 => SFin (rel_proc s i) RetErr (LOpenFail KDst)
+      | _ => (* the destination connector is held by another live run: Destination.Open refuses, no plugin call *)
+             if existsb (fun j => negb (Nat.eqb j i) && is_live (s_runs s j)) (seq 0 (s_next s))
+             then SFin (rel_proc s i) RetErr LTau else SStuck
       end
   | SOpenSrc i =>    (* v2 worker.Open: source task *)
       match get_run s i with
@@ -290,6 +296,16 @@ Definition start_step (c : cfg) (s : st) (pc : spc) (choice : nat) : sres :=
       end
   end.
 
+Definition is_v1 (c : cfg) : bool := match c_engine c with V1 => true | V2 => false end.
+
+(* v1 records a node's error on the tomb only AFTER the node's deferred nodesWg.Done() (tomb.v2 calls
+   Kill(err) in its own bookkeeping once the goroutine function has returned; v2 Kills synchronously
+   before Done for exactly this reason): the cleanup goroutine can read tomb.Err() while the error that
+   ended the run has not reached the tomb yet. A force stop Kills inside the Stop call and is never late. *)
+Definition late_read (c : cfg) (r : run) (choice : nat) : bool :=
+  is_v1 c && match choice with 0 => false | _ => true end
+  && match r_kill r with Some CaForce | None => false | Some _ => true end.
+
 (* ---------- cleanup goroutine of run i ---------- *)
 Definition finish_clean (s : st) (i : nat) (r : run) (e : res) : st :=
   set_clean (upd_run s i (rw_dead r (tomb_res (r_kill r) e))) i None.
@@ -303,7 +319,7 @@ Definition clean_step (c : cfg) (s : st) (i : nat) (choice : nat) : option (st *
           match r_phase r with
           | PEnded =>
               if r_started r then
-                let rs := reason_of c (r_kill r) in
+                let rs := if late_read c r choice then RNil else reason_of c (r_kill r) in
                 let f := flags_of c s r in
                 let arms := arms_of (c_engine c) in
                 if enters_recovery arms rs f
@@ -403,7 +419,13 @@ Definition user_step (c : cfg) (s : st) (choice : nat) : option (st * label) :=
                       | PLive, SInit => None
                       | PLive, SOpen =>
                           if r_stop r then after s (quiet RetErr) LTau      (* stop already triggered *)
-                          else after (upd_run s i (rw_stop r (is_stopall m))) RetNil LTau
+                          else match r_kill r, choice with
+                               | Some _, S _ =>
+                                   (* the tomb is already dying (force stop, failing sibling): the source
+                                      node's context is cancelled, Source.Stop / the injection fails *)
+                                   after s (quiet RetErr) LTau
+                               | _, _ => after (upd_run s i (rw_stop r (is_stopall m))) RetNil LTau
+                               end
                       | _, _ => after s (quiet RetErr) LTau       (* source node is not running *)
                       end
                   | V2 =>
@@ -478,18 +500,9 @@ Definition call_step (c : cfg) (s : st) (k : ckind) (id : nat) : option (st * la
 Fixpoint remove_cause (c : cause) (l : list cause) : list cause :=
   match l with [] => [] | x :: t => if cause_eqb x c then t else x :: remove_cause c t end.
 
-Definition is_live (r : run) : bool := match r_phase r with PLive => true | _ => false end.
 Definition src_open (r : run) : bool := match r_src r with SOpen => true | _ => false end.
 Definition src_init (r : run) : bool := match r_src r with SInit => true | _ => false end.
 Definition ending (r : run) : bool := r_stop r || match r_kill r with Some _ => true | None => false end.
-Definition is_v1 (c : cfg) : bool := match c_engine c with V1 => true | V2 => false end.
-
-(* v1 records a node's error on the tomb only AFTER the node's deferred nodesWg.Done() (tomb.v2 calls
-   Kill(err) in its own bookkeeping once the goroutine function has returned; v2 Kills synchronously
-   before Done for exactly this reason): the run can come to its end, and the cleanup goroutine can read
-   tomb.Err(), while the failure that ended the run has not reached the tomb yet *)
-Definition late_kill (c : cfg) (r : run) : bool :=
-  is_v1 c && match r_cands r with [] => false | _ => true end.
 Definition is_ended (r : run) : bool := match r_phase r with PEnded => true | _ => false end.
 
 Definition env_step (c : cfg) (s : st) (a : act) : option (st * label) :=
@@ -505,14 +518,14 @@ Definition env_step (c : cfg) (s : st) (a : act) : option (st * label) :=
       match get_run s i with
       | Some r =>
           if is_v1 c && is_live r && src_init r
-          then Some (upd_run s i (rw_kill (rw_src r SClosed) CaTransient), LOpenFail KSrc) else None
+          then Some (upd_run s i (rw_cands (rw_src r SClosed) (r_cands r ++ [CaTransient])), LOpenFail KSrc) else None
       | None => None
       end
   | AOpenBusy i =>
       match get_run s i with
       | Some r =>
           if is_v1 c && is_live r && src_init r && negb (onat_eqb (s_guard s) None)
-          then Some (upd_run s i (rw_kill (rw_src r SClosed) CaTransient), LTau) else None
+          then Some (upd_run s i (rw_cands (rw_src r SClosed) (r_cands r ++ [CaTransient])), LTau) else None
       | None => None
       end
   | AInject i x =>
@@ -523,21 +536,31 @@ Definition env_step (c : cfg) (s : st) (a : act) : option (st * label) :=
   | AKill i x =>
       match get_run s i with
       | Some r =>
-          if (is_live r || (is_v1 c && is_ended r)) && existsb (cause_eqb x) (r_cands r)
+          if is_live r && existsb (cause_eqb x) (r_cands r)
           then Some (upd_run s i (rw_kill (rw_cands r (remove_cause x (r_cands r))) x), LTau) else None
       | None => None
       end
   | ATd i =>
       match get_run s i with
       | Some r =>
-          if is_live r && src_open r && (ending r || late_kill c r) && onat_eqb (s_guard s) (Some i)
+          if is_live r && src_open r && ending r && onat_eqb (s_guard s) (Some i)
           then Some (upd_run (with_guard s None) i (rw_src r SClosed), LTd) else None
+      | None => None
+      end
+  | AConflict i =>
+      (* two runs are live at once (a Start admitted during the recovery back-off): the connector guards
+         are per connector, so each run can win one connector and lose another; the loser's node fails *)
+      match get_run s i with
+      | Some r =>
+          if is_v1 c && is_live r && negb (ending r) && match r_cands r with [] => true | _ => false end
+             && existsb (fun j => negb (Nat.eqb j i) && is_live (s_runs s j)) (seq 0 (s_next s))
+          then Some (upd_run s i (rw_cands r (r_cands r ++ [CaTransient])), LTau) else None
       | None => None
       end
   | AEnd i =>
       match get_run s i with
       | Some r =>
-          if is_live r && negb (src_open r) && (ending r || late_kill c r)
+          if is_live r && negb (src_open r) && ending r
           then
             let g := is_v1 c && r_shutreq r && match r_kill r with None => true | Some _ => false end in
             Some (rel_proc (upd_run s i (rw_gshut (rw_src (rw_phase r PEnded) SClosed) g)) i, LTau)
